@@ -134,6 +134,21 @@ fn ack52_to_lib(a: &Ack5) -> Result<c5::PublishAck2, String> {
 
 /// Reference value -> library value (fails only for values the library's
 /// types cannot represent; generators never produce those).
+/// can the library's packet types hold this value at all?  (they use NonZero types for packet ids, aliases,
+/// expiry intervals, subscription identifiers, Maximum Packet Size and Receive Maximum)
+pub fn representable5(p: &P5) -> bool {
+    match p {
+        P5::Connect(c) => c.max_packet_size != Some(0) && c.receive_max != Some(0) && c.will.as_ref().is_none_or(|w| w.expiry != Some(0)),
+        P5::ConnAck(c) => c.receive_max != Some(0) && c.max_packet_size != Some(0),
+        P5::Publish(pb) => pb.pid != Some(0) && pb.topic_alias != Some(0) && pb.expiry != Some(0) && pb.sub_ids.iter().all(|v| *v != 0),
+        P5::PubAck(a) | P5::PubRec(a) | P5::PubRel(a) | P5::PubComp(a) => a.pid != 0,
+        P5::Subscribe(sb) => sb.pid != 0 && sb.sub_id != Some(0),
+        P5::SubAck(a) | P5::UnsubAck(a) => a.pid != 0,
+        P5::Unsubscribe(u) => u.pid != 0,
+        _ => true,
+    }
+}
+
 pub fn to_lib5(p: &P5) -> Result<Lib5, String> {
     Ok(Lib5::Packet(match p {
         P5::Publish(pb) => return Ok(Lib5::Publish(publish5_to_lib(pb))),
